@@ -51,6 +51,13 @@ def cases(shard, rnd):
                 yield wire.method_frame(rnd, spec, allow_refuse=(k % 7 == 0),
                                         force_tags=force)
     else:
+        if shard['name'].startswith('h0'):
+            # a whole conversation as real brokers / clients write it
+            from ..gen import realistic
+            kinds = {1: 'method', 2: 'header', 3: 'body', 8: 'heartbeat',
+                     65: 'protocol'}
+            for label, data in realistic.session_frames():
+                yield {'kind': kinds[data[0]], 'wire': data, 'name': label}
         for k in range(shard['n']):
             yield wire.header_frame(rnd, allow_refuse=(k % 9 == 0),
                                     continuation=(k % 50 == 0))
